@@ -1634,4 +1634,102 @@ example : WFMd ⟨⟨⟨0, 0, 8, ⟨⟨1, 0⟩, ⟨1, 0⟩, ⟨1, 0⟩, 0, 0, 0,
 example : (normMd ⟨⟨⟨0, 0, 8, ⟨⟨1, 0⟩, ⟨1, 0⟩, ⟨1, 0⟩, 0, 0, 0, 0, 0⟩⟩, 7⟩, false, 0, 5, ⟨[]⟩, ⟨[]⟩, some []⟩).options = none := by
   decide
 
+/-! ## Injectivity of the three encodings (`C06_*_pack_injective`) -/
+
+/-- **the Eof encoding is injective on the domain**: two valid PDUs with the same octets are the same
+    PDU (corollary of `C06_eof_roundtrip`) -/
+theorem C06_eof_pack_injective (a b : Eof) (wa : WFEof a) (wb : WFEof b)
+    (h : Spec.eof a = Spec.eof b) : a = b := by
+  have r1 := C06_eof_roundtrip a wa []
+  have r2 := C06_eof_roundtrip b wb []
+  rw [h, r2] at r1
+  exact (Except.ok.inj r1).symm
+
+/-- the same for the library's `pack()`, as an iff: valid Eof PDUs are equal exactly when they pack to
+    the same octets -/
+theorem C06_eof_pack_eq_iff (a b : Eof) (wa : WFEof a) (wb : WFEof b) : a.pack = b.pack ↔ a = b := by
+  constructor
+  · intro h
+    rw [C06_eof_pack_exact a wa, C06_eof_pack_exact b wb] at h
+    exact C06_eof_pack_injective a b wa wb (Except.ok.inj h)
+  · rintro rfl; rfl
+
+-- non-vacuity: two distinct valid Eof PDUs (they differ in the last octet of the fault location only) with different octets
+example : WFEof exEof ∧ WFEof { exEof with faultLoc := some ⟨⟨6, [0x0A, 0x0C]⟩⟩ } ∧ Spec.eof exEof ≠ Spec.eof { exEof with faultLoc := some ⟨⟨6, [0x0A, 0x0C]⟩⟩ } := by
+  have w1 : WFEof exEof := by decide
+  have w2 : WFEof { exEof with faultLoc := some ⟨⟨6, [0x0A, 0x0C]⟩⟩ } := by decide
+  exact ⟨w1, w2, fun h => absurd (C06_eof_pack_injective _ _ w1 w2 h) (by decide)⟩
+
+/-- **the Finished encoding is injective on the domain**: two valid PDUs with the same octets are the same
+    PDU (corollary of `C06_finished_roundtrip`) -/
+theorem C06_finished_pack_injective (a b : Finished) (wa : WFFin a) (wb : WFFin b)
+    (h : Spec.finished a = Spec.finished b) : a = b := by
+  have r1 := C06_finished_roundtrip a wa []
+  have r2 := C06_finished_roundtrip b wb []
+  rw [h, r2] at r1
+  exact (Except.ok.inj r1).symm
+
+/-- the same for the library's `pack()`, as an iff: valid Finished PDUs are equal exactly when they pack to
+    the same octets -/
+theorem C06_finished_pack_eq_iff (a b : Finished) (wa : WFFin a) (wb : WFFin b) : a.pack = b.pack ↔ a = b := by
+  constructor
+  · intro h
+    rw [C06_finished_pack_exact a wa, C06_finished_pack_exact b wb] at h
+    exact C06_finished_pack_injective a b wa wb (Except.ok.inj h)
+  · rintro rfl; rfl
+
+-- non-vacuity: two distinct valid Finished PDUs (they differ in the last octet of the last filestore message only) with different octets
+example : WFFin exFin ∧ WFFin { exFin with responses := [⟨0, 1, [0x61], [], ⟨[]⟩⟩, ⟨2, 33, [0xC3, 0xA4], [0x62], ⟨[10]⟩⟩] } ∧ Spec.finished exFin ≠ Spec.finished { exFin with responses := [⟨0, 1, [0x61], [], ⟨[]⟩⟩, ⟨2, 33, [0xC3, 0xA4], [0x62], ⟨[10]⟩⟩] } := by
+  have w1 : WFFin exFin := by decide
+  have w2 : WFFin { exFin with responses := [⟨0, 1, [0x61], [], ⟨[]⟩⟩, ⟨2, 33, [0xC3, 0xA4], [0x62], ⟨[10]⟩⟩] } := by decide
+  exact ⟨w1, w2, fun h => absurd (C06_finished_pack_injective _ _ w1 w2 h) (by decide)⟩
+
+/-- **the Metadata encoding is injective on the domain, up to the decoder's view of the options**: the
+    round trip returns `normMd k` (no options and an empty option list are one PDU, every option comes
+    back as the generic TLV of the same type and value), so two valid PDUs with the same octets have the
+    same normal form (corollary of `C06_metadata_roundtrip`) -/
+theorem C06_metadata_pack_injective (a b : Metadata) (wa : WFMd a) (wb : WFMd b)
+    (h : Spec.metadata a = Spec.metadata b) : normMd a = normMd b := by
+  have r1 := C06_metadata_roundtrip a wa []
+  have r2 := C06_metadata_roundtrip b wb []
+  rw [h, r2] at r1
+  exact (Except.ok.inj r1).symm
+
+/-- spelled out, and for the library's `pack()`: valid Metadata PDUs that pack to the same octets agree
+    in header, closure flag, checksum type, file size and both file names, and their option lists have
+    the same normal form (same TLV types and values in the same order) -/
+theorem C06_metadata_pack_injective_fields (a b : Metadata) (wa : WFMd a) (wb : WFMd b)
+    (h : a.pack = b.pack) :
+    a.fd = b.fd ∧ a.closure = b.closure ∧ a.checksumType = b.checksumType ∧ a.fileSize = b.fileSize ∧
+    a.srcLv = b.srcLv ∧ a.dstLv = b.dstLv ∧ normOptions a.options = normOptions b.options := by
+  rw [C06_metadata_pack_exact a wa, C06_metadata_pack_exact b wb] at h
+  have e := C06_metadata_pack_injective a b wa wb (Except.ok.inj h)
+  cases a; cases b
+  simpa [normMd] using e
+
+/-- for PDUs whose options are already in the decoder's form (`normMd k = k`, e.g. everything the
+    decoder returns, or no options) the encoding is injective outright -/
+theorem C06_metadata_pack_injective_normal (a b : Metadata) (wa : WFMd a) (wb : WFMd b)
+    (na : normMd a = a) (nb : normMd b = b) (h : Spec.metadata a = Spec.metadata b) : a = b := by
+  rw [← na, ← nb]; exact C06_metadata_pack_injective a b wa wb h
+
+-- non-vacuity: two valid Metadata PDUs in normal form (they differ in the last octet of the last option
+-- only) with different octets
+private def exMdN : Metadata := { exMd with options := some [.generic ⟨2, [0xAA]⟩, .generic ⟨5, [1, 2]⟩] }
+private def exMdN' : Metadata := { exMd with options := some [.generic ⟨2, [0xAA]⟩, .generic ⟨5, [1, 3]⟩] }
+example : WFMd exMdN ∧ WFMd exMdN' ∧ normMd exMdN = exMdN ∧ normMd exMdN' = exMdN' ∧
+    Spec.metadata exMdN ≠ Spec.metadata exMdN' := by
+  have w1 : WFMd exMdN := by decide
+  have w2 : WFMd exMdN' := by decide
+  have n1 : normMd exMdN = exMdN := by decide
+  have n2 : normMd exMdN' = exMdN' := by decide
+  exact ⟨w1, w2, n1, n2, fun h => absurd (C06_metadata_pack_injective_normal _ _ w1 w2 n1 n2 h) (by decide)⟩
+-- the normalisation is really there: `exMd` (first option a Message-to-User TLV) and `exMdN` (the same
+-- option as a generic TLV) are different valid PDUs with the same octets
+example : WFMd exMd ∧ WFMd exMdN ∧ exMd ≠ exMdN ∧ Spec.metadata exMd = Spec.metadata exMdN := by
+  have hp : Spec.mdParams exMd = Spec.mdParams exMdN := by decide
+  have hf : exMdN.fd = exMd.fd := rfl
+  refine ⟨by decide, by decide, by decide, ?_⟩
+  rw [Spec.metadata, Spec.metadata, hp, hf]
+
 end SpVerif.Props.C06Var
